@@ -30,9 +30,15 @@
 // rest.  (2) unit k's EXEC is answered with an error (Inject) or executed and its connection
 // dropped (DropReply) after the later units were acknowledged; Send fails; StartPoint + Send on
 // the SAME RedisOutput (its first StartPoint had seen only the root checkpoint), then a fresh
-// instance.  Which unit, node, lane, lane count, hold point: PRNG / scenario index.  Oracle: every
+// instance.  (1b) "gap closes last": the held unit is released after the later ones were
+// acknowledged, a flush is observed, stop, two fresh instances.  (3) SYNC mode on the cluster (one
+// latest record per slot): era 1 into several slots, a second snapshot under the unchanged run id
+// on the same instance (StartPoint → Send(snapshot) → StartPoint → Send(stream)), fewer units into
+// other slots, stop; the fresh instance must resume exactly after the last committed unit and
+// repeat nothing.  Which unit, node, lane, lane count, hold point: PRNG / scenario index.  Oracle: every
 // stored frontier and every resume offset covers only committed units, unit boundary, never
-// backwards, no unit missing at the end (repeats are allowed in parallel mode).
+// backwards, no unit missing at the end (repeats are allowed in parallel mode, none in sync mode);
+// every stored frontier's (seq, offset) is the pair of ONE committed unit record.
 //
 // Oracle (bisweep.Judge), per DESIGN C14: resume offset R of every start ∈ {unit ends} ∪ {stream
 // start}; every unit ending at or before R is committed (complete target transaction: all business
@@ -84,14 +90,14 @@ func main() {
 			"switch/migration); restarted runs: every state inside start-up bookkeeping/recovery/migration and between starts exhaustively, traffic-phase states by PRNG (thorough: a third level, PRNG third of its states); exhaustive per observed request sequence, not over schedules; RebuildBisyncFrontier on all "+
 			"subsets of ≤10 surviving journal records (observed states + synthetic windows); clean-stop schedule: PRNG(seed,i) → cancel of the Send context at stream byte n / target request k in mid-traffic, "+
 			"target drained, fresh-start chain; cluster scenarios: PRNG(seed,i) → (held/failing unit, node and lane of every unit, 2–4 lanes, hold point, flush before) for out-of-order acknowledgement + stop and for "+
-			"failed unit + in-process restart; distinct = (mode[, other-db], modes of the restarted starts, depth, where the prefix falls: in-unit / between-units / "+
+			"failed unit + in-process restart, plus gap-closes-last orders and sync-mode resynchronisation under the same run id; distinct = (mode[, other-db], modes of the restarted starts, depth, where the prefix falls: in-unit / between-units / "+
 			"between-frontier-save-and-journal-delete / inside-recovery[/journal-cleanup] / idle / after-stop, whether the resumed run repeated units)")
 	run.Watchdog(110 * time.Minute)
 	run.Assume("target state after a crash = effects of a prefix of the requests the double executed; an open MULTI block is discarded (fakeredis); business writes are logged, not executed")
 	run.Assume("a restarted instance runs syncer.VerifNewOutput (= syncer.newOutput) against a source double reporting a fixed replication id, then StartPoint, then Send from the returned offset")
 	run.Assume("standalone target: one slot tag, one lane; unit i of the generator = i-th stand-alone write or non-empty MULTI/EXEC group (SELECT/PING/administrative commands/empty transactions form no unit)")
 	run.Assume("mode switches across recovery families are only provoked from states that hold a migration seed (latest record / frontier / journal from seq 1); the refusal to migrate an unseeded namespace is not judged")
-	run.Assume("cluster target: only the two directed out-of-order schedules (held unit + stop; failed unit + in-process restart) on a stable 3-node double, single-key units; no request-prefix sweep there (a start scans 16384 slot tags)")
+	run.Assume("cluster target: only the directed schedules (held unit + stop; gap closes last; failed unit + in-process restart; sync-mode resync under the same run id) on a stable 3-node double, single-key units; no request-prefix sweep there (a start scans 16384 slot tags)")
 	run.MinDistinct(6)
 
 	d := bisweep.NewDriver(syncer.VerifNewOutput)
@@ -105,10 +111,10 @@ func main() {
 	if v, err := strconv.Atoi(os.Getenv("VERIF_C14_LINKS")); err == nil {
 		links = v
 	}
-	nOoo, nInproc := run.N(6, 150), run.N(5, 100)
+	nOoo, nInproc, nSync := run.N(8, 160), run.N(4, 100), run.N(3, 60)
 	switch os.Getenv("VERIF_C14_ONLY") {
 	case "stops":
-		nBase, directed, nOoo, nInproc = 0, false, 0, 0
+		nBase, directed, nOoo, nInproc, nSync = 0, false, 0, 0, 0
 	case "cluster":
 		nBase, directed, nStops = 0, false, 0
 	}
@@ -122,7 +128,7 @@ func main() {
 	clusterDone := make(chan struct{})
 	cluster := func() {
 		defer close(clusterDone)
-		bisweep.ClusterScenarios(run, bisweep.ClusterOptions{NOutOfOrder: nOoo, NInProcess: nInproc, Workers: 6, Driver: d})
+		bisweep.ClusterScenarios(run, bisweep.ClusterOptions{NOutOfOrder: nOoo, NInProcess: nInproc, NSyncResync: nSync, Workers: 6, Driver: d})
 	}
 	few := runtime.GOMAXPROCS(0) < 8
 	if few && links > 8 {
